@@ -30,7 +30,14 @@ REGIONS = {
     "cli": ("logos-cli/src/main.rs", "logos-cli", (31, 100), ["C17"]),
     "strip": ("logos-codegen/src/lib.rs", "logos-codegen", (448, 500), ["C17"]),
     "sorts": ("logos-codegen/src", "logos-codegen", None, ["C16"]),
+    # second sweep: the rest of the code generator, where most mutants change ordinary and partial lexing alike (C01-C03,
+    # not C07); survivors are triaged with the help of `ref_disagree` (one-shot lexing deviates from the reference model)
+    "fork_rest": ("logos-codegen/src/generator/fork.rs", "logos-codegen", (60, 229), ["C07"]),
+    "leaf": ("logos-codegen/src/generator/leaf.rs", "logos-codegen", (12, 93), ["C07"]),
+    "gen_mod": ("logos-codegen/src/generator/mod.rs", "logos-codegen", (175, 330), ["C07"]),
+    "graph_rewrite": ("logos-codegen/src/graph/mod.rs", "logos-codegen", (498, 612), ["C07"]),
 }
+SECOND = ("fork_rest", "leaf", "gen_mod", "graph_rewrite")
 QUICK_ENV = {"C14": "150000", "C15": "100000", "C07": "400000", "C17": "700"}
 
 SWAPS = [
@@ -141,12 +148,16 @@ def main():
             r = json.loads(l)
             done.add((r["region"], r["file"], r["line"], r["description"]))
     for region in REGIONS:
-        if only and region != only:
+        if only and region != only and not (only == "second" and region in SECOND):
+            continue
+        if not only and region in SECOND:
             continue
         file, crate, rng, checks = REGIONS[region]
         muts = mutants_for(region)
-        if limit:
-            muts = muts[:limit]
+        if limit and len(muts) > limit:
+            # an evenly spread sample
+            step = len(muts) / limit
+            muts = [muts[int(i * step)] for i in range(limit)]
         print(f"== region {region}: {len(muts)} mutants", flush=True)
         for mut in muts:
             key = (region, mut[0], mut[1] + 1, mut[3])
@@ -178,6 +189,12 @@ def main():
                             rec["status"] = "harness-error"
                             rec["error_tail"] = r.stdout[-400:]
                             break
+                        if chk == "C07" and r.returncode == 0:
+                            try:
+                                ev = json.load(open(os.path.join(VERIF, "evidence", "C07.json")))
+                                rec["ref_disagree"] = ev["coverage"].get("ref_disagree", 0)
+                            except Exception:
+                                pass
             finally:
                 restore()
             rec["seconds"] = round(time.time() - t0, 1)
